@@ -9,6 +9,8 @@ RULE = ("random histories with MaxValidators 2 over 5 validators: ties, zero-pow
 
 
 def bigkey(ev):
+    if ev.get("ev") == "block" and "imbalance" in ev and not ev.get("cometOk") and ev.get("extreme"):
+        return "large-scale/extreme-token-configuration/comet-refuses/%s" % ev.get("cometClass")
     if ev.get("ev") == "block" and "imbalance" in ev:
         return "large-scale/imbalance=%s/signs=%s,%s,%s,%s/cometOk=%s" % (ev.get("imbalance") != 0, ev.get("goatSign"), ev.get("gasSign"), ev.get("remainSign"), ev.get("accruedSign"), ev.get("cometOk"))
     return lc.key(ev)
